@@ -12,7 +12,9 @@ the directory: marker files, whether a probe can take the run lock, the body cou
 import json
 import logging
 import os
+import signal
 import sys
+import threading
 from concurrent.futures import ThreadPoolExecutor
 from pathlib import Path
 
@@ -82,7 +84,11 @@ def launch(job, k, l, env):
     # what CommandLineJob.aio_run does right after starting the process
     with job["pid"].open("w") as fp:
         json.dump(process.tospec(), fp)
+    hung = []
+    timer = threading.Timer(90, lambda: (hung.append(1), os.kill(process.tospec()["pid"], signal.SIGKILL)))
+    timer.start()
     rc = process.wait()
+    timer.cancel()
     pre, post, lines, kill = [], [], [], None
     for line in (evlog.read_text().splitlines() if evlog.exists() else []):
         tag, _, rest = line.partition(" ")
@@ -95,7 +101,7 @@ def launch(job, k, l, env):
             (post if kill else pre).append(rest)
     out = dict(mode=l["mode"], sig=l.get("sig"), n=l.get("n") or 0, fired=kill is not None,
                ctx=kill["ctx"] if kill else None, at=kill["at"] if kill else None,
-               pre=pre, post=post, rc=rc, nlines=len(lines), obs=observe(job))
+               pre=pre, post=post, rc=rc, nlines=len(lines), obs=observe(job), hung=bool(hung))
     if l.get("ref"):
         out["lines"] = lines
     if rc not in (0, 1, -9, -15, -2) or os.environ.get("VPK_C10_KEEPERR"):
